@@ -77,14 +77,26 @@ Hypothesis PC_bump : forall l k, P l k -> P l (k + 1).
 Hypothesis PC_remove : forall l k i, P l k -> P (fst (fm_remove i l)) k.
 Hypothesis PC_entry : forall l k i ic grp s, P l k ->
   P (fm_entry_or_insert i (marg_new ic grp) (fun m => new_val_group (set_source s m)) l) k.
-Hypothesis PC_addval : forall l k i m m' v, P l k -> fm_get i l = Some m -> append_val v m = Some m' ->
+Hypothesis PC_addval : forall l k i j m m' v, In i (groups_for_arg c j) ->
+  P l k -> fm_get i l = Some m -> append_val v m = Some m' ->
   P (fm_update i (fun _ => m') l) k.
-Hypothesis PC_push : forall l k i m m' v, P l k -> fm_get i l = Some m -> append_val v m = Some m' ->
+(** [V]: where the values of arguments may come from (provenance); [PC_push] may rely on it *)
+Variable V : bytes -> Prop.
+Hypothesis PC_push : forall l k i m m' v, V v -> P l k -> fm_get i l = Some m -> append_val v m = Some m' ->
   P (fm_update i (push_index (k + 1)) (fm_update i (fun _ => m') l)) (k + 1).
+Hypothesis V_true : V s_true.
+Hypothesis V_false : V s_false.
+Hypothesis V_dec : forall n, V (n_to_dec n).
+Hypothesis V_split : forall v d l, V v -> split v d = SplitOk l -> Forall V l.
+Hypothesis V_dm : forall a, In a (c_args c) -> Forall V (a_default_missing a).
+Hypothesis V_def : forall a, In a (c_args c) -> Forall V (a_default a).
+Hypothesis V_env : forall a v, In a (c_args c) -> a_env a = Some v -> V v.
+Hypothesis V_dif : forall a i p d, In a (c_args c) -> In (i, p, Some d) (a_default_ifs a) -> V d.
 
 Definition pend_ok (m : matcher) : Prop :=
   forall p, mt_pending m = Some p ->
-    exists a, find_arg c (p_id p) = Some a /\ (p_ident p = Some IIndex \/ a_is_positional a = false).
+    exists a, find_arg c (p_id p) = Some a /\ (p_ident p = Some IIndex \/ a_is_positional a = false)
+              /\ Forall V (p_raw p).
 Definition entries_ok (l : list (id * marg)) : Prop := forall i m, In (i, m) l -> id_exists c i = true.
 
 (** matcher-level invariant at index counter [k] *)
@@ -202,8 +214,8 @@ Proof.
   destruct (start_custom_arg_m_MG m1 k a s Hin H1) as [H2 [H2p H2o]].
   set (m2 := start_custom_arg_m m1 a s) in *.
   destruct (src_explicit s); [|cbn; split; [exact H2|split; [congruence|exact H2o]]].
-  assert (Hgs : forall g, In g (groups_for_arg c (a_id a)) -> id_exists c g = true)
-    by (intros g Hg; eapply id_exists_group; exact Hg).
+  assert (Hgs : forall g, In g (groups_for_arg c (a_id a)) -> exists j, In g (groups_for_arg c j))
+    by (intros g Hg; exists (a_id a); exact Hg).
   revert Hgs. generalize (groups_for_arg c (a_id a)) as gs.
   assert (Hacc : mres_ok (fun m' => MG m' k /\ mt_pending m' = mt_pending m /\ has_open (a_id a) (mt_args m')) (ROk m2)).
   { cbn. split; [exact H2|split; [congruence|exact H2o]]. }
@@ -219,8 +231,10 @@ Proof.
     [cbn; destruct (m_raw v); discriminate|].
   rewrite Ha. cbn. repeat split.
   - exact Hp.
-  - autorewrite with ps. apply entries_ok_update, entries_ok_entry; [exact He|apply Hgs; left; reflexivity].
-  - autorewrite with ps. eapply PC_addval; [apply PC_entry; exact HP|exact Hv|exact Ha].
+  - autorewrite with ps. apply entries_ok_update, entries_ok_entry; [exact He|].
+    destruct (Hgs g (or_introl eq_refl)) as [j0 Hj0]. eapply id_exists_group. exact Hj0.
+  - autorewrite with ps. destruct (Hgs g (or_introl eq_refl)) as [j0 Hj0].
+    eapply PC_addval; [exact Hj0|apply PC_entry; exact HP|exact Hv|exact Ha].
   - exact Hpe.
   - autorewrite with ps. apply has_open_update_val; [apply has_open_entry; exact Hop|exact Hr].
 Qed.
@@ -241,11 +255,12 @@ Qed.
 
 (** ** [push_arg_values] *)
 Lemma push_arg_values_safe a : In a (c_args c) -> forall raw st,
-  G st -> has_open (a_id a) (mt_args (mt st)) ->
+  Forall V raw -> G st -> has_open (a_id a) (mt_args (mt st)) ->
   safe (fun s => G s /\ mt_pending (mt s) = mt_pending (mt st)) G (push_arg_values c a raw st).
 Proof.
   intros Hin. destruct (W1 a Hin) as [_ [_ Hvp]].
-  induction raw as [|v t IH]; intros st HG Hop; cbn [push_arg_values]; [split; [exact HG|reflexivity]|].
+  induction raw as [|v t IH]; intros st HVr HG Hop; cbn [push_arg_values]; [split; [exact HG|reflexivity]|].
+  inversion HVr as [|? ? HVv HVt]; subst.
   destruct (a_vp a) as [vp|]; [|contradiction]. cbn [expect rbind].
   destruct (vp_parse vp v); [cbn; apply G_bump; exact HG|].
   destruct HG as [[Hp [He HP]] [Hfa Hfs]].
@@ -253,7 +268,7 @@ Proof.
   destruct (append_val_open v ma Hraw) as [m' [Happ [Hraw' _]]].
   unfold add_val_to. autorewrite with ps. rewrite Hget, Happ. cbn [expect rbind].
   unfold add_index_to. autorewrite with ps. rewrite fm_get_update, Hget. cbn [expect rbind]. autorewrite with ps.
-  eapply safe_weaken; [apply IH| |intros s Hs; exact Hs].
+  eapply safe_weaken; [apply IH; [exact HVt| |]| |intros s Hs; exact Hs].
   - repeat split; autorewrite with ps; auto.
     + apply entries_ok_update, entries_ok_update; exact He.
     + eapply PC_push; eassumption.
@@ -281,39 +296,63 @@ Proof.
 Qed.
 
 (** ** [react_core] *)
+Lemma delimit_go_V ddt db ti : forall l i r, Forall V l -> delimit_go ddt db ti i l = Some r -> Forall V r.
+Proof.
+  induction l as [|v t IH]; intros i r HV; cbn [delimit_go]; [intros H; inversion H; constructor|].
+  inversion HV as [|? ? Hv Ht]; subst.
+  destruct (negb (contains v db) || (ddt && match ti with Some k => k <=? i | None => false end)).
+  - destruct (delimit_go ddt db ti (i + 1) t) as [b|] eqn:E; [|discriminate]. intros H; inversion H; subst.
+    cbn. constructor; [exact Hv|eapply IH; eassumption].
+  - destruct (split v db) as [| |parts] eqn:Es; try discriminate.
+    destruct (delimit_go ddt db ti (i + 1) t) as [b|] eqn:E; [|discriminate]. intros H; inversion H; subst.
+    apply Forall_app. split; [eapply V_split; eassumption|eapply IH; eassumption].
+Qed.
+
+Lemma delimit_V a raw ti r : Forall V raw -> delimit c a raw ti = Some r -> Forall V r.
+Proof.
+  unfold delimit. intros HV. destruct (a_delim a) as [d|]; [|intros H; inversion H; subst; exact HV].
+  destruct (is_set s_dont_delimit_trailing c && match ti with Some 0 => true | _ => false end);
+    [intros H; inversion H; subst; exact HV|]. apply delimit_go_V. exact HV.
+Qed.
+
 Definition pending_of (st : ps) := mt_pending (mt st).
 
 Lemma G_set_mt st m : MG m (cur_idx st) -> fs_at st = None -> fs_skip st = 0 -> G (st <| mt := m |>).
 Proof. intros H1 H2 H3. repeat split; autorewrite with ps; try apply H1; assumption. Qed.
 
-Lemma react_core_safe idn s a raw ti st : In a (c_args c) -> G st ->
+Lemma react_core_safe idn s a raw ti st : In a (c_args c) -> Forall V raw -> G st ->
   safe (fun x => G (fst x) /\ snd x = PRValuesDone /\ pending_of (fst x) = pending_of st) G
        (react_core c idn s a raw ti st).
 Proof.
-  intros Hin HG. unfold react_core.
+  intros Hin HVraw HG. unfold react_core.
   eapply safe_bind with (Q1 := fun _ => True).
   { destruct (is_cmdline s); [|exact I].
     eapply safe_weaken; [apply verify_num_args_safe; exact Hin|auto|intros s0 ->; exact HG]. }
   intros _ _.
   destruct (match raw with [] => if negb (is_nil (a_default_missing a)) then (a_default_missing a, None) else (raw, ti)
-                         | _ => (raw, ti) end) as [raw1 ti1].
+                         | _ => (raw, ti) end) as [raw1 ti1] eqn:Eraw1.
+  assert (HV1 : Forall V raw1).
+  { destruct raw; [destruct (negb (is_nil (a_default_missing a)))|]; inversion Eraw1; subst;
+      first [apply V_dm; exact Hin|exact HVraw]. }
   destruct (delimit_some a raw1 ti1) as [raw2 Hd]. rewrite Hd. cbn [expect rbind].
+  pose proof (delimit_V a raw1 ti1 raw2 HV1 Hd) as HV2.
   (* the common tail: start_custom_arg then push_arg_values *)
-  assert (Tail : forall raw' st1, G st1 -> pending_of st1 = pending_of st ->
+  assert (Tail : forall raw' st1, Forall V raw' -> G st1 -> pending_of st1 = pending_of st ->
      safe (fun x => G (fst x) /\ snd x = PRValuesDone /\ pending_of (fst x) = pending_of st) G
        (do m2 <- start_custom_arg c a s (mt st1);
         do st' <- push_arg_values c a raw' (st1 <| mt := m2 |>);
         ROk (st', PRValuesDone))).
-  { intros raw' st1 [HM [Hfa Hfs]] Hpe.
+  { intros raw' st1 HVr' [HM [Hfa Hfs]] Hpe.
     pose proof (start_custom_arg_safe a s (mt st1) (cur_idx st1) Hin HM) as Hs.
     destruct (start_custom_arg c a s (mt st1)) as [m2|e0 s0|site]; cbn in Hs; try contradiction.
     destruct Hs as [HM2 [Hp2 Ho2]]. cbn [rbind].
     eapply safe_bind; [apply (push_arg_values_safe a Hin raw' (st1 <| mt := m2 |>))| ].
+    - exact HVr'.
     - apply G_set_mt; assumption.
     - autorewrite with ps. exact Ho2.
     - intros st' [HG' Hp']. cbn. split; [exact HG'|split; [reflexivity|]].
       unfold pending_of in *. rewrite Hp'. autorewrite with ps. congruence. }
-  assert (SetLike : forall raw' (bump : bool) st1, G st1 -> pending_of st1 = pending_of st ->
+  assert (SetLike : forall raw' (bump : bool) st1, Forall V raw' -> G st1 -> pending_of st1 = pending_of st ->
      safe (fun x => G (fst x) /\ snd x = PRValuesDone /\ pending_of (fst x) = pending_of st) G
        (let st2 := if bump && is_cmdline s && is_flag_ident idn then ps_bump st1 else st1 in
         let '(m1, removed) := mt_remove (mt st2) (a_id a) in
@@ -323,7 +362,7 @@ Proof.
         else do m2 <- start_custom_arg c a s m1;
              do st' <- push_arg_values c a raw' (st3 <| mt := m2 |>);
              ROk (st', PRValuesDone))).
-  { intros raw' bump st1 HG1 Hpe. cbn zeta.
+  { intros raw' bump st1 HVr' HG1 Hpe. cbn zeta.
     set (st2 := if bump && is_cmdline s && is_flag_ident idn then ps_bump st1 else st1).
     assert (HG2 : G st2 /\ pending_of st2 = pending_of st1).
     { subst st2. destruct (bump && is_cmdline s && is_flag_ident idn); [split; [apply G_bump; exact HG1|reflexivity]|split; [exact HG1|reflexivity]]. }
@@ -332,22 +371,27 @@ Proof.
     destruct (mt_remove (mt st2) (a_id a)) as [m1 removed] eqn:Er. cbn [fst] in HM3, Hp3.
     assert (HG3 : G (st2 <| mt := m1 |>)) by (apply G_set_mt; assumption).
     destruct (removed && negb (is_set s_args_override_self c || mem_id (a_id a) (a_overrides a))); [exact HG3|].
-    specialize (Tail raw' (st2 <| mt := m1 |>) HG3). autorewrite with ps in Tail. apply Tail.
+    specialize (Tail raw' (st2 <| mt := m1 |>) HVr' HG3). autorewrite with ps in Tail. apply Tail.
     unfold pending_of. autorewrite with ps. unfold pending_of in *. congruence. }
+  assert (HVt : Forall V (match raw2 with [] => [s_true] | _ => raw2 end))
+    by (destruct raw2; [repeat constructor; exact V_true|exact HV2]).
+  assert (HVf : Forall V (match raw2 with [] => [s_false] | _ => raw2 end))
+    by (destruct raw2; [repeat constructor; exact V_false|exact HV2]).
   destruct (a_get_action a).
-  - apply (SetLike raw2 true st HG eq_refl).
+  - apply (SetLike raw2 true st HV2 HG eq_refl).
   - set (st1 := if is_cmdline s && is_flag_ident idn then ps_bump st else st).
     assert (HG1 : G st1 /\ pending_of st1 = pending_of st).
     { subst st1. destruct (is_cmdline s && is_flag_ident idn); [split; [apply G_bump; exact HG|reflexivity]|split; [exact HG|reflexivity]]. }
-    destruct HG1 as [HG1 Hp1]. apply (Tail raw2 st1 HG1 Hp1).
-  - apply (SetLike _ false st HG eq_refl).
-  - apply (SetLike _ false st HG eq_refl).
+    destruct HG1 as [HG1 Hp1]. apply (Tail raw2 st1 HV2 HG1 Hp1).
+  - apply (SetLike _ false st HVt HG eq_refl).
+  - apply (SetLike _ false st HVf HG eq_refl).
   - destruct HG as [HM [Hfa Hfs]].
     pose proof (MG_remove (mt st) (cur_idx st) (a_id a) HM) as [HM3 Hp3].
     destruct (mt_remove (mt st) (a_id a)) as [m1 removed] eqn:Er. cbn [fst] in HM3, Hp3.
     match goal with |- context [push_arg_values c a ?r _] => set (rawc := r) end.
     assert (HG3 : G (st <| mt := m1 |>)) by (apply G_set_mt; assumption).
-    pose proof (Tail rawc (st <| mt := m1 |>) HG3) as T. autorewrite with ps in T. apply T.
+    assert (HVc : Forall V rawc) by (subst rawc; destruct raw2; [repeat constructor; apply V_dec|exact HV2]).
+    pose proof (Tail rawc (st <| mt := m1 |>) HVc HG3) as T. autorewrite with ps in T. apply T.
     unfold pending_of. autorewrite with ps. exact Hp3.
   - exact HG.
   - exact HG.
@@ -367,16 +411,16 @@ Lemma resolve_pending_safe st : G st ->
 Proof.
   intros HG. unfold resolve_pending. destruct (mt_pending (mt st)) as [p|] eqn:Ep; [|split; [exact HG|exact Ep]].
   destruct HG as [[Hp [He HP]] [Hfa Hfs]].
-  destruct (Hp p Ep) as [a [Hfind _]]. rewrite Hfind. cbn [expect rbind].
+  destruct (Hp p Ep) as [a [Hfind [_ HVp]]]. rewrite Hfind. cbn [expect rbind].
   destruct (find_arg_some _ _ _ Hfind) as [Hin _].
-  eapply safe_bind; [apply react_core_safe; [exact Hin|apply G_clear_pending; repeat split; assumption]|].
+  eapply safe_bind; [apply react_core_safe; [exact Hin|exact HVp|apply G_clear_pending; exact (conj (conj Hp (conj He HP)) (conj Hfa Hfs))]|].
   intros [st' pr] [HG' [_ Hpe]]. cbn in *. split; [exact HG'|]. rewrite Hpe. unfold pending_of. autorewrite with ps. reflexivity.
 Qed.
 
-Lemma react_safe idn s a raw ti st : In a (c_args c) -> G st ->
+Lemma react_safe idn s a raw ti st : In a (c_args c) -> Forall V raw -> G st ->
   safe (fun x => G (fst x) /\ snd x = PRValuesDone /\ pending_of (fst x) = None) G (react c idn s a raw ti st).
 Proof.
-  intros Hin HG. unfold react. eapply safe_bind; [apply resolve_pending_safe; exact HG|].
+  intros Hin HVraw HG. unfold react. eapply safe_bind; [apply resolve_pending_safe; exact HG|].
   intros st1 [HG1 Hp1]. eapply safe_weaken; [apply react_core_safe; eassumption| |auto].
   intros x [H1 [H2 H3]]. split; [exact H1|split; [exact H2|congruence]].
 Qed.
@@ -417,15 +461,15 @@ Proof.
 Qed.
 
 Lemma G_new_pending st p a : G st -> find_arg c (p_id p) = Some a ->
-  (p_ident p = Some IIndex \/ a_is_positional a = false) ->
+  (p_ident p = Some IIndex \/ a_is_positional a = false) -> Forall V (p_raw p) ->
   G (st <| mt := (mt st) <| mt_pending := Some p |> |>).
 Proof.
-  intros [[Hp [He HP]] [Hfa Hfs]] Hf Hi. repeat split; autorewrite with ps; auto.
-  intros p' Hp'. autorewrite with ps in Hp'. inversion Hp'; subst. exists a; split; assumption.
+  intros [[Hp [He HP]] [Hfa Hfs]] Hf Hi HVp. repeat split; autorewrite with ps; auto.
+  intros p' Hp'. autorewrite with ps in Hp'. inversion Hp'; subst. exists a; split; [assumption|split; assumption].
 Qed.
 
 Lemma parse_opt_value_safe idn attached a has_eq st :
-  In a (c_args c) -> a_is_positional a = false -> G st ->
+  In a (c_args c) -> a_is_positional a = false -> (forall v, attached = Some v -> V v) -> G st ->
   safe (fun x => G (fst x) /\
                  match snd x with
                  | PROpt i => pend_is (fst x) i
@@ -435,21 +479,22 @@ Lemma parse_opt_value_safe idn attached a has_eq st :
                  | _ => False end) G
        (parse_opt_value c idn attached a has_eq st).
 Proof.
-  intros Hin Hnp HG. unfold parse_opt_value.
+  intros Hin Hnp HVa HG. unfold parse_opt_value.
   destruct (a_req_eq a && negb has_eq) eqn:Ereq.
   - destruct (W1 a Hin) as [_ [Hn _]]. destruct (a_num a) as [r|]; [|contradiction]. cbn [expect rbind].
     destruct (vmin r =? 0).
-    + eapply safe_bind; [apply react_safe; eassumption|]. intros x [HGx _]. cbn. split; [exact HGx|].
+    + eapply safe_bind; [apply react_safe; [exact Hin|constructor|exact HG]|]. intros x [HGx _]. cbn. split; [exact HGx|].
       destruct attached; cbn; [|exact I]. apply andb_prop in Ereq. destruct Ereq as [E1 E2].
       repeat split; [discriminate|exact E1|destruct has_eq; [discriminate|reflexivity]].
     + cbn. split; [exact HG|exact I].
   - destruct attached as [v|].
-    + eapply safe_bind; [apply react_safe; eassumption|]. intros x [HGx _]. cbn. split; [exact HGx|exact I].
+    + eapply safe_bind; [apply react_safe; [exact Hin|constructor; [apply HVa; reflexivity|constructor]|exact HG]|].
+      intros x [HGx _]. cbn. split; [exact HGx|exact I].
     + eapply safe_bind; [apply resolve_pending_safe; exact HG|]. intros st1 [HG1 Hp1].
       rewrite (pending_values_push_new _ _ _ _ _ Hp1). cbn [expect rbind]. cbn.
       split.
       * destruct (find_arg_of_in c a Hin) as [a' Ha']. rewrite (W3 a Hin) in Ha'. inversion Ha'; subst a'.
-        eapply G_new_pending; [exact HG1|cbn; apply W3; exact Hin|right; exact Hnp].
+        eapply G_new_pending; [exact HG1|cbn; apply W3; exact Hin|right; exact Hnp|constructor].
       * eexists. unfold pending_of. autorewrite with ps. split; reflexivity.
 Qed.
 
@@ -536,10 +581,10 @@ Proof.
 Qed.
 
 Lemma parse_long_arg_safe flag ok value pst pc vaf st :
-  G st -> LI pst st -> (flag = [] -> value <> None) ->
+  G st -> LI pst st -> (flag = [] -> value <> None) -> (forall v, value = Some v -> V v) ->
   safe (fun x => flag_res st x /\ snd (fst x) <> PRNoArg) G (parse_long_arg c flag ok value pst pc vaf st).
 Proof.
-  intros HG HL Hflag. unfold parse_long_arg.
+  intros HG HL Hflag HVv. unfold parse_long_arg.
   destruct (state_arg_safe pst st HG HL) as [sa [-> _]]. cbn [rbind].
   destruct (match sa with Some a => a_hyphen a | None => false end);
     [cbn; split; [split; [exact HG|reflexivity]|discriminate]|].
@@ -567,7 +612,7 @@ Proof.
       destruct pr; try contradiction; (split; [split; [exact HG1|try exact I; try exact Hpr]|discriminate]).
       destruct Hpr as [H1 [_ H3]]. destruct value; [discriminate|contradiction].
     + destruct value as [rest|]; [cbn; split; [split; [exact HG|exact I]|discriminate]|].
-      eapply safe_bind; [apply react_safe; eassumption|].
+      eapply safe_bind; [apply react_safe; [exact Hin|constructor|exact HG]|].
       intros [st1 pr] [HG1 [Hpr _]]. cbn in *. subst pr. split; [split; [exact HG1|exact I]|discriminate].
   - destruct (possible_long_flag_subcommand c flag) as [n|] eqn:Es.
     + cbn. split; [|discriminate]. split; [exact HG|].
@@ -577,9 +622,25 @@ Proof.
 Qed.
 
 (** ** the short cluster *)
+Lemma strip_eq_spec (val : option bytes) :
+  (match val with Some (61 :: v) => (Some v, true) | _ => (val, false) end) =
+  match val with Some (b :: v) => if b =? 61 then (Some v, true) else (val, false) | _ => (val, false) end.
+Proof.
+  destruct val as [[|b v]|]; try reflexivity. destruct (b =? 61) eqn:E.
+  - apply N.eqb_eq in E. subst. reflexivity.
+  - destruct b as [|p]; [reflexivity|].
+    do 7 (try (destruct p as [p|p|]; try reflexivity)); cbn in E; discriminate.
+Qed.
+
+Lemma sf_next_skipn r ch r' : sf_next r = Some (inl ch, r') -> exists n, r' = skipn n r.
+Proof.
+  unfold sf_next. destruct r as [|b t]; [discriminate|].
+  destruct (utf8_step (b :: t)) as [[c0 n]|]; intros H; inversion H. exists n. reflexivity.
+Qed.
+
 Lemma short_loop_safe : forall fuel r ret vaf st,
   (length r < fuel)%nat -> G st ->
-  (ret = PRNoArg \/ ret = PRValuesDone) ->
+  (ret = PRNoArg \/ ret = PRValuesDone) -> (forall n, V (skipn n r)) ->
   safe (fun x => let '(st1, pr, _) := x in
                  G st1 /\
                  match pr with
@@ -592,21 +653,28 @@ Lemma short_loop_safe : forall fuel r ret vaf st,
                  end) G
        (short_loop c fuel r ret vaf st).
 Proof.
-  induction fuel as [|f IH]; intros r ret vaf st Hlen HG Hret; [lia|].
+  induction fuel as [|f IH]; intros r ret vaf st Hlen HG Hret HVs; [lia|].
   cbn [short_loop].
   destruct (sf_next r) as [[[ch|rest] r']|] eqn:En.
   - pose proof En as Hshr. apply sf_next_shrinks in Hshr.
+    assert (HVs' : forall n, V (skipn n r')).
+    { destruct (sf_next_skipn _ _ _ En) as [n0 ->]. intros n. rewrite skipn_add. apply HVs. }
     destruct (get_short c ch) as [a|] eqn:Eg.
     + destruct (get_short_in _ _ _ Eg) as [Hin Hi].
       pose proof (nonpos_of_index_none a Hin Hi) as Hnp.
       destruct (negb (a_takes_value a)).
-      * eapply safe_bind; [apply react_safe; eassumption|].
+      * eapply safe_bind; [apply react_safe; [exact Hin|constructor|exact HG]|].
         intros [st1 pr] [HG1 [Hpr _]]. cbn in Hpr, HG1. subst pr. cbn [fst snd].
-        eapply safe_weaken; [apply IH; [lia|exact HG1|right; reflexivity]| |auto].
+        eapply safe_weaken; [apply IH; [lia|exact HG1|right; reflexivity|exact HVs']| |auto].
         intros [[st2 pr2] v2] [HG2 H2]. split; [exact HG2|].
         destruct pr2; try exact H2; try exact I. destruct H2 as [_ [H2 _]]. discriminate.
       * set (val := match r' with [] => None | _ => Some r' end).
         destruct (match val with Some (61 :: v) => (Some v, true) | _ => (val, false) end) as [val' has_eq] eqn:Ev.
+        assert (HVval : forall v, val' = Some v -> V v).
+        { intros v Hv. rewrite strip_eq_spec in Ev. subst val.
+          destruct r' as [|b0 t0]; [injection Ev as E1 _; rewrite <- E1 in Hv; discriminate|].
+          destruct (b0 =? 61); injection Ev as E1 _; rewrite <- E1 in Hv; injection Hv as <-;
+            [apply (HVs' 1%nat)|apply (HVs' 0%nat)]. }
         eapply safe_bind; [apply parse_opt_value_safe; eassumption|].
         intros [st1 pr] [HG1 Hpr]. cbn [fst snd] in *.
         destruct pr; try contradiction; cbn.
@@ -616,7 +684,7 @@ Proof.
            destruct Hpr as [Hatt _].
            assert (Hr' : r' <> []).
            { subst val. destruct r'; [|discriminate]. inversion Ev; subst. contradiction. }
-           eapply safe_weaken; [apply IH; [lia|exact HG1|exact Hret]| |auto].
+           eapply safe_weaken; [apply IH; [lia|exact HG1|exact Hret|exact HVs']| |auto].
            intros [[st2 pr2] v2] [HG2 H2]. split; [exact HG2|].
            destruct pr2; try exact H2; try exact I. destruct H2 as [_ [_ H2]]. contradiction.
         -- split; [exact HG1|exact I].
@@ -628,7 +696,7 @@ Proof.
 Qed.
 
 (** ** [parse_short_arg] *)
-Lemma parse_short_arg_safe r pst pc vaf st : r <> [] -> G st -> LI pst st ->
+Lemma parse_short_arg_safe r pst pc vaf st : r <> [] -> G st -> LI pst st -> (forall n, V (skipn n r)) ->
   safe (fun x => let '(st1, pr, _) := x in
                  G st1 /\
                  match pr with
@@ -639,7 +707,7 @@ Lemma parse_short_arg_safe r pst pc vaf st : r <> [] -> G st -> LI pst st ->
                  end) G
        (parse_short_arg c r pst pc vaf st).
 Proof.
-  intros Hr HG HL. unfold parse_short_arg.
+  intros Hr HG HL HVs. unfold parse_short_arg.
   destruct (state_arg_safe pst st HG HL) as [sa [-> _]]. cbn [rbind].
   destruct (match sa with Some a => a_hyphen a || (a_negnum a && sf_is_negative_number r) | None => false end);
     [cbn; split; [exact HG|reflexivity]|].
@@ -655,7 +723,7 @@ Proof.
   assert (Hst : st <| fs_skip := 0 |> = st).
   { destruct st; cbn in *. subst. reflexivity. }
   rewrite Hst.
-  eapply safe_weaken; [apply short_loop_safe; [lia|repeat split; try apply HM; assumption|left; reflexivity]| |auto].
+  eapply safe_weaken; [apply short_loop_safe; [lia|exact (conj HM (conj Hfa Hfs))|left; reflexivity|exact HVs]| |auto].
   intros [[st1 pr] v] [HG1 H1]. split; [exact HG1|].
   destruct pr; try exact H1; try exact I; try contradiction.
   destruct H1 as [_ [_ H1]]. contradiction.
@@ -696,43 +764,73 @@ Qed.
 Lemma pending_values_push_same m p i idn tr v :
   mt_pending m = Some p -> p_id p = i -> (idn = None \/ p_ident p = idn) ->
   exists p', pending_values_push m i idn tr v = Some (m <| mt_pending := Some p' |>)
-             /\ p_id p' = i /\ p_ident p' = p_ident p.
+             /\ p_id p' = i /\ p_ident p' = p_ident p
+             /\ p_raw p' = match v with Some x => p_raw p ++ [x] | None => p_raw p end.
 Proof.
   intros Hp Hi Hid. subst i. unfold pending_values_push. rewrite Hp. rewrite beq_refl. cbn [negb].
   replace (is_some idn && negb (ident_eqb (p_ident p) idn)) with false.
-  - eexists. split; [reflexivity|]. cbn. split; reflexivity.
+  - eexists. split; [reflexivity|]. cbn. split; [reflexivity|split; reflexivity].
   - destruct Hid as [->|Hid]; [reflexivity|]. rewrite Hid. destruct idn as [[]|]; reflexivity.
 Qed.
 
 Lemma G_update_pending st p p' : G st -> pending_of st = Some p -> p_id p' = p_id p -> p_ident p' = p_ident p ->
+  Forall V (p_raw p') ->
   G (st <| mt := (mt st) <| mt_pending := Some p' |> |>).
 Proof.
-  intros HG Hp Hid Hident. pose proof HG as [[Hpe _] _]. destruct (Hpe p Hp) as [a [Hf Hi]].
-  eapply G_new_pending; [exact HG|rewrite Hid; exact Hf|rewrite Hident; exact Hi].
+  intros HG Hp Hid Hident HVp. pose proof HG as [[Hpe _] _]. destruct (Hpe p Hp) as [a [Hf [Hi _]]].
+  eapply G_new_pending; [exact HG|rewrite Hid; exact Hf|rewrite Hident; exact Hi|exact HVp].
 Qed.
 
-Lemma push_pos_safe st a tok trailing : In a (c_args c) -> a_index a <> None -> G st ->
+Lemma pending_raw_V st p : G st -> pending_of st = Some p -> Forall V (p_raw p).
+Proof. intros [[Hpe _] _] Hp. destruct (Hpe p Hp) as [a [_ [_ HV]]]. exact HV. Qed.
+
+Lemma push_pos_safe st a tok trailing : In a (c_args c) -> a_index a <> None -> V tok -> G st ->
   (pending_of st = None \/ exists p, pending_of st = Some p /\ p_id p = a_id a) ->
   exists m1, pending_values_push (mt st) (a_id a) (Some IIndex) trailing (Some tok) = Some m1
              /\ G (st <| mt := m1 |>).
 Proof.
-  intros Hin Hidx HG [Hn|[p [Hp Hid]]].
+  intros Hin Hidx HVtok HG [Hn|[p [Hp Hid]]].
   - rewrite (pending_values_push_new _ _ _ _ _ Hn). eexists. split; [reflexivity|].
-    eapply G_new_pending; [exact HG|cbn; apply W3; exact Hin|left; reflexivity].
-  - pose proof HG as [[Hpe _] _]. destruct (Hpe p Hp) as [a' [Hf Hi]].
+    eapply G_new_pending; [exact HG|cbn; apply W3; exact Hin|left; reflexivity|cbn; repeat constructor; exact HVtok].
+  - pose proof HG as [[Hpe _] _]. destruct (Hpe p Hp) as [a' [Hf [Hi HVp]]].
     rewrite Hid, (W3 a Hin) in Hf. inversion Hf; subst a'.
     assert (Hident : p_ident p = Some IIndex).
     { destruct Hi as [Hi|Hi]; [exact Hi|]. rewrite (W2 a Hin Hidx) in Hi. discriminate. }
     destruct (pending_values_push_same (mt st) p (a_id a) (Some IIndex) trailing (Some tok) Hp Hid)
-      as [p' [Hpush [Hid' Hident']]]; [right; exact Hident|].
+      as [p' [Hpush [Hid' [Hident' Hraw']]]]; [right; exact Hident|].
     rewrite Hpush. eexists. split; [reflexivity|].
-    eapply G_update_pending; [exact HG|exact Hp|congruence|exact Hident'].
+    eapply G_update_pending; [exact HG|exact Hp|congruence|exact Hident'|].
+    rewrite Hraw'. apply Forall_app. split; [exact HVp|repeat constructor; exact HVtok].
 Qed.
 
-Lemma parse_loop_safe : forall toks ls st, G st -> LI (l_pst ls) st ->
+(** every suffix of a token has an admissible provenance *)
+Definition Vtok (tok : bytes) : Prop := forall n, V (skipn n tok).
+
+Lemma to_long_value_suffix tok f ok v : to_long tok = Some (f, ok, Some v) -> exists n, v = skipn n tok.
+Proof.
+  unfold to_long, strip_prefix. destruct (starts_with tok [DASH; DASH]); [|discriminate].
+  remember (skipn (length [DASH; DASH]) tok) as r eqn:Er. destruct r as [|b t]; [discriminate|].
+  unfold split_once. destruct (find (b :: t) [EQ]) as [start|]; [|discriminate].
+  intros H; inversion H; subst v. exists (length [DASH; DASH] + (start + length [EQ]))%nat.
+  rewrite <- (skipn_add (start + length [EQ]) (length [DASH; DASH]) tok), <- Er. reflexivity.
+Qed.
+
+Lemma to_short_suffix tok r : to_short tok = Some r -> exists n, r = skipn n tok.
+Proof.
+  unfold to_short, strip_prefix. destruct (starts_with tok [DASH]); [|discriminate].
+  destruct (starts_with _ [DASH]); [discriminate|]. destruct (is_nil _); [discriminate|].
+  intros H. injection H as <-. exists (length [DASH]). reflexivity.
+Qed.
+
+Lemma parse_loop_safe : forall toks ls st, G st -> LI (l_pst ls) st -> Forall Vtok toks ->
   safe lr_ok G (parse_loop c toks ls st).
 Proof.
-  induction toks as [|tok rest IH]; intros ls st HG HL; [cbn; split; [exact HG|exact I]|].
+  induction toks as [|tok rest IH0]; intros ls st HG HL HVtoks; [cbn; split; [exact HG|exact I]|].
+  inversion HVtoks as [|? ? HVtok HVrest]; subst.
+  assert (IH : forall ls st, G st -> LI (l_pst ls) st -> safe lr_ok G (parse_loop c rest ls st))
+    by (intros; apply IH0; assumption).
+  clear IH0.
+  assert (HVt0 : V tok) by (apply (HVtok 0%nat)).
   cbn [parse_loop].
   (* phase 1 *)
   match goal with |- safe _ _ (rbind ?ph _) => set (phase1 := ph) end.
@@ -788,17 +886,20 @@ Proof.
       apply IH.
       - destruct HG as [[Hp [He HP]] [Hfa Hfs]]. unfold start_trailing.
         destruct (mt_pending (mt st)) as [p|] eqn:Ep; [|apply G_set_mt; [exact (conj Hp (conj He HP))|assumption|assumption]].
-        apply (G_update_pending st p); [exact (conj (conj Hp (conj He HP)) (conj Hfa Hfs))|exact Ep|reflexivity|reflexivity].
+        apply (G_update_pending st p); [exact (conj (conj Hp (conj He HP)) (conj Hfa Hfs))|exact Ep|reflexivity|reflexivity|].
+        destruct (Hp p Ep) as [a0 [_ [_ HVp0]]]. exact HVp0.
       - cbn. destruct (l_pst ls) as [|i|i]; [exact I| |exact HL].
         destruct HL as [p [Hp Hi]]. unfold pend_is, pending_of, start_trailing in *. rewrite Hp.
         eexists. autorewrite with ps. split; [reflexivity|exact Hi]. }
     destruct (to_long tok) as [[[f ok] v]|] eqn:El.
-    { eapply safe_bind; [apply parse_long_arg_safe; [exact HG|exact HL|intros Hf; eapply to_long_flag; eassumption]|].
+    { eapply safe_bind; [apply parse_long_arg_safe; [exact HG|exact HL|intros Hf; eapply to_long_flag; eassumption|]|].
+      { intros v0 Hv0. subst v. destruct (to_long_value_suffix _ _ _ _ El) as [n0 ->]. apply HVtok. }
       intros [[st1 pr] vaf1] [Hres Hno]. cbn [fst snd] in *.
       destruct pr; try (exfalso; apply Hno; reflexivity);
         (let HA := fresh "HA" in pose proof (After (st1, _, vaf1) Hres) as HA; cbn in HA |- *; exact HA). }
     destruct (to_short tok) as [r|] eqn:Es; [|cbn; split; [exact HG|split; [exact HL|reflexivity]]].
-    eapply safe_bind; [apply parse_short_arg_safe; [eapply to_short_nonempty; exact Es|exact HG|exact HL]|].
+    eapply safe_bind; [apply parse_short_arg_safe; [eapply to_short_nonempty; exact Es|exact HG|exact HL|]|].
+    { destruct (to_short_suffix _ _ Es) as [n0 ->]. intros n. rewrite skipn_add. apply HVtok. }
     intros [[st1 pr] vaf1] [HG1 Hpr].
     assert (HA : flag_res st (st1, pr, vaf1)).
     { split; [exact HG1|]. destruct pr; try contradiction; first [exact Hpr|exact I]. }
@@ -827,7 +928,7 @@ Proof.
       + match goal with |- safe _ _ (rbind (if ?b then _ else _) _) => destruct b eqn:Eb end.
         * eapply safe_bind; [apply resolve_pending_safe; exact HG1|]. intros s2 [HG2 Hp2].
           destruct (check_terminator a tok); [apply IH; [exact HG2|exact I]|].
-          destruct (push_pos_safe s2 a tok (l_trailing ls1 || a_tva a) Hin Hidx HG2 (or_introl Hp2)) as [m1 [Hpush HGm]].
+          destruct (push_pos_safe s2 a tok (l_trailing ls1 || a_tva a) Hin Hidx HVt0 HG2 (or_introl Hp2)) as [m1 [Hpush HGm]].
           rewrite Hpush. cbn [expect rbind].
           destruct (negb (a_is_multiple a)); apply IH; try exact HGm; cbn; [exact I|].
           exists a. apply W3; exact Hin.
@@ -837,7 +938,7 @@ Proof.
             unfold pending_arg_id, pending_of in *. destruct (mt_pending (mt st1)) as [p|]; cbn in E1; [|discriminate].
             exists p. split; [reflexivity|]. apply beq_eq in E1. exact E1. }
           destruct (check_terminator a tok); [apply IH; [exact HG1|exact I]|].
-          destruct (push_pos_safe st1 a tok (l_trailing ls1 || a_tva a) Hin Hidx HG1 (or_intror Hpend)) as [m1 [Hpush HGm]].
+          destruct (push_pos_safe st1 a tok (l_trailing ls1 || a_tva a) Hin Hidx HVt0 HG1 (or_intror Hpend)) as [m1 [Hpush HGm]].
           rewrite Hpush. cbn [expect rbind].
           destruct (negb (a_is_multiple a)); apply IH; try exact HGm; cbn; [exact I|].
           exists a. apply W3; exact Hin.
@@ -853,12 +954,13 @@ Proof.
     pose proof HG1 as [[Hpe _] _]. destruct (Hpe p Hp) as [a [Hf _]]. rewrite Hid in Hf. rewrite Hf. cbn [expect rbind].
     destruct (find_arg_some _ _ _ Hf) as [Hin _].
     destruct (check_terminator a tok); [apply IH; [exact HG1|exact I]|].
-    destruct (pending_values_push_same (mt st1) p i None false (Some tok) Hp Hid) as [p' [Hpush [Hid' Hident']]];
+    destruct (pending_values_push_same (mt st1) p i None false (Some tok) Hp Hid) as [p' [Hpush [Hid' [Hident' Hraw']]]];
       [left; reflexivity|].
     rewrite Hpush. cbn [expect rbind]. unfold needs_more_vals.
     destruct (W1 a Hin) as [_ [Hn _]]. destruct (a_num a) as [r|]; [|contradiction]. cbn [expect rbind].
     apply IH.
-    + eapply G_update_pending; [exact HG1|exact Hp|congruence|exact Hident'].
+    + eapply G_update_pending; [exact HG1|exact Hp|congruence|exact Hident'|].
+      rewrite Hraw'. apply Forall_app. split; [apply (pending_raw_V st1 p HG1 Hp)|repeat constructor; exact HVt0].
     + cbn. match goal with |- LI (if ?b then _ else _) _ => destruct b end; [|exact I].
       eexists. unfold pending_of. autorewrite with ps. split; [reflexivity|exact Hid'].
   - exact Hpos.
@@ -880,8 +982,8 @@ Proof.
   apply (fold_res_safe _ (c_args c) (fun a => In a (c_args c))); [auto| |exact HG].
   intros acc a Hin Hacc. eapply safe_bind; [exact Hacc|]. intros s HGs.
   destruct (mt_contains (mt s) (a_id a)); [exact HGs|].
-  destruct (a_env a) as [v|]; [|exact HGs].
-  eapply safe_bind; [apply react_safe; eassumption|]. intros x [Hx _]. exact Hx.
+  destruct (a_env a) as [v|] eqn:Eenv; [|exact HGs].
+  eapply safe_bind; [apply react_safe; [exact Hin|repeat constructor; eapply V_env; eassumption|exact HGs]|]. intros x [Hx _]. exact Hx.
 Qed.
 
 Lemma add_default_value_safe a st : In a (c_args c) -> G st -> safe G G (add_default_value c a st).
@@ -892,10 +994,11 @@ Proof.
                               else do x <- react c None SDefault a (a_default a) None st; ROk (fst x)
                             else ROk st)).
   { destruct (negb (is_nil (a_default a))); [|exact HG]. destruct (mt_contains (mt st) (a_id a)); [exact HG|].
-    eapply safe_bind; [apply react_safe; eassumption|]. intros x [Hx _]. exact Hx. }
+    eapply safe_bind; [apply react_safe; [exact Hin|apply V_def; exact Hin|exact HG]|]. intros x [Hx _]. exact Hx. }
   destruct (negb (is_nil (a_default_ifs a)) && negb (mt_contains (mt st) (a_id a))); [|exact Plain].
-  destruct (List.find _ (a_default_ifs a)) as [[[i p] [d|]]|]; [|exact HG|exact Plain].
-  eapply safe_bind; [apply react_safe; eassumption|]. intros x [Hx _]. exact Hx.
+  destruct (List.find _ (a_default_ifs a)) as [[[i p] [d|]]|] eqn:Ef; [|exact HG|exact Plain].
+  apply List.find_some in Ef. destruct Ef as [Hind _].
+  eapply safe_bind; [apply react_safe; [exact Hin|repeat constructor; eapply V_dif; eassumption|exact HG]|]. intros x [Hx _]. exact Hx.
 Qed.
 
 Lemma add_defaults_safe st : G st -> safe G G (add_defaults c st).
